@@ -806,12 +806,16 @@ class FuncLowerer:
         po, lo = getattr(self, 'param_order', []), getattr(self, 'local_order', [])
 
         def positional(m):
-            kind, n = m.group(1), int(m.group(2))
+            # @l3:i@ : the local named i if there is one (robust against reordered declarations), else the 3rd declared local
+            # (robust against renaming); @p2@ / @l3@ : purely positional
+            kind, n, nm = m.group(1), int(m.group(2)), m.group(3)
             seq = po if kind == 'p' else lo
+            if nm and nm in seq:
+                return nm
             if n < 1 or n > len(seq):
-                raise Abort('loop contract of %s refers to @%s%d@ but only %d are declared before the loop' % (self.cname, kind, n, len(seq)))
+                raise Abort('loop contract of %s refers to @%s%d%s@ but only %d are declared before the loop' % (self.cname, kind, n, ':' + nm if nm else '', len(seq)))
             return seq[n - 1]
-        t = re.sub(r'@([pl])(\d+)@', positional, t)
+        t = re.sub(r'@([pl])(\d+)(?::(\w+))?@', positional, t)
         for x in t.strip().split('\n'):
             m = re.match(r'\s*VF_REBASE\((.+?),\s*(.+)\)\s*$', x)
             if m:
